@@ -153,6 +153,17 @@ def corr(ctx, n, nmax):
                 k = int(re.findall(r',\s*(\d+)\)', blk)[-1])
                 m = len(py)
                 ok = len(vals) >= m and all(same(u, v) for u, v in zip(vals[:m], py)) and k == k_py
+            if ok and which == 'chandrupatla' and n_l == 1 and py is not None:
+                # scalar input must behave like the one-element vector (the model's single lane)
+                g = f.sub([0])
+                try:
+                    with np.errstate(all='ignore'):
+                        xs = float(np.asarray(chandrupatla(lambda t: g(np.array([t]))[0], float(lo[0]), float(hi[0]), maxiter=maxiter)))
+                    ok = same(xs, py[0])
+                    if not ok:
+                        py = ('scalar call', xs, 'vector call', py[0])
+                except AssertionError:
+                    ok = False
             ctx.obligation(f'corr:{which}:case{i}', ok, 'correspondence', f'model {blk[:300]} vs implementation {str(py)[:300]} k={k_py}')
             ctx.case((which, i), {'algo': which, 'lanes': n_l, 'maxiter': maxiter, 'tol': tol, 'kinds': f.kinds[:6].tolist(),
                                   'rejected': py is None}, nontrivial=(py is not None))
